@@ -423,8 +423,11 @@ def run_check(modname: str, tier: str) -> int:
         try:
             extra = mod.finish(tier, base, merged) or {}
         except HarnessError as exc:
-            print(f"HARNESS-ERROR property={prop}: {exc}", flush=True)
-            return EXIT_HARNESS
+            if not merged["violations"]:
+                print(f"HARNESS-ERROR property={prop}: {exc}", flush=True)
+                return EXIT_HARNESS
+            print(f"note: {exc}", flush=True)
+            extra = {}
         merged["violations"].extend(extra.pop("violations", []))
 
     # ---- classify violations -------------------------------------------
